@@ -27,11 +27,18 @@ def wmax_provider(prog: Program, rep, RID: str, classes: List[str]):
         key = f"{cname}.__init__:w_max"
         # locals (max_flow_value = <query>) are substituted, conditional conversions are judged case by case
         from rules.common import local_single_defs, substitute_locals, expr_cases
-        first_sub = substitute_locals(first, local_single_defs(f.node))
-        verdicts = [_wmax_ok(x, inexact=cname in INEXACT_MODELS) for _, x in expr_cases(first_sub)]
+        # `self.w_max = A if c else B` is written by the program model as an if / else of two stores: alternatives of one definition
+        alternatives = [sts[0]]
+        for i_ in ast.walk(f.node):
+            if isinstance(i_, ast.If) and len(i_.body) == 1 and len(i_.orelse) == 1 and i_.body[0] is sts[0] and len(sts) > 1 and i_.orelse[0] is sts[1]:
+                alternatives.append(sts[1])
+        verdicts = []
+        for alt in alternatives:
+            alt_sub = substitute_locals(alt.value, local_single_defs(f.node))
+            verdicts += [_wmax_ok(x, inexact=cname in INEXACT_MODELS) for _, x in expr_cases(alt_sub)]
         bad = [v for v in verdicts if not v[0]]
         ok, why = (False, bad[0][1]) if bad else (True, " / ".join(sorted({v[1] for v in verdicts})))
-        for later in sts[1:]:
+        for later in sts[len(alternatives):]:
             v = later.value
             if not (isinstance(v, ast.Call) and dotted(v.func) == "max" and any(norm(a) == "self.w_max" for a in v.args)):
                 ok, why = False, f"w_max is overwritten by `{norm(v)[:60]}` (not a max with its previous value)"
@@ -56,7 +63,7 @@ def _wmax_ok(e: ast.AST, inexact: bool = False) -> (bool, str):
     if "edges_to_ignore=self.edges_to_ignore" not in atom.replace(" ", "").replace("edges_to_ignore=self.edges_to_ignore", "edges_to_ignore=self.edges_to_ignore"):
         return False, "max-flow query does not exclude the ignore set"
     if re.match(r"^self\.weight_type\(", atom):
-        if inexact:
+        if True:
             return False, ("the largest flow value is converted with weight_type(), i.e. int() truncates it for integer weights: a value that is an integer up to float "
                            "noise (2.9999999999999996) becomes 2 and the optimum weight 3 is cut off, 0.9999999999999999 gives w_max = 0 (infeasible)")
     elif not re.match(r"^(math\.ceil|ceil|float)\(", atom):
@@ -268,3 +275,22 @@ def given_weights_integral(prog: Program, rep, RID: str, classes: List[str]):
             rep.ok(RID, key, "a non-integral superset is rejected with ValueError when weight_type is int", init.loc(hit))
         else:
             raise AnalysisError(f"{cname}.__init__: cannot relate the rejection `{norm(hit.test)[:100]}` to weight_type == int")
+
+
+def given_weights_nonnegative(prog: Program, rep, RID: str, classes: List[str]):
+    """With a weight superset the models have no weight variables (whose lower bound is 0): the given numbers are matrix coefficients and are copied into
+    the solution.  One non-negative weight per returned path then rests on the constructor rejecting negative entries."""
+    from rules import val as _val
+    for cname in classes:
+        init = prog.own_method(cname, "__init__")
+        key = f"{cname}.__init__:given-weights-nonnegative"
+        hit = None
+        for s_ in _val.sites_in(init):
+            if "solution_weights_superset" in str(s_.get("loop") or "") + s_["test"] and re.search(r"LT0\[L\d_\d\]|not \(LE0\[-", s_["test"]) and s_["exc"] == "ValueError":
+                hit = s_
+        if hit is not None:
+            rep.ok(RID, key, "negative entries of solution_weights_superset are rejected with ValueError", init.loc(hit["_node"]))
+        else:
+            rep.violation(RID, key, f"{cname} accepts negative entries in solution_weights_superset and copies them into the solution: on s->a->t with flow 5 and the superset "
+                          "[-2, 7] the model reports solved with the path weights [-2, 7] (the weight variables of the ordinary encoding have lower bound 0; with a superset "
+                          "there are none)", init.loc())
